@@ -110,6 +110,56 @@ def classify(path, base):
     return None
 
 
+def one_load(rec, ver, allow, main, mech, loc, src, base, explicit):
+    """One schema load under observation. -> description of the disagreement or None."""
+    import xmlschema
+    kwargs = {"allow": allow}
+    if allow == "sandbox" and explicit:
+        kwargs["base_url"] = os.path.join(base, "sand")
+    del _events[:]
+    cls = cm.schema_class(ver)
+    schema = err = None
+    try:
+        with warnings.catch_warnings():
+            warnings.simplefilter("ignore")
+            schema = cls(src, **kwargs)
+    except xmlschema.XMLSchemaException as e:
+        err = e
+    except Exception as e:      # noqa: BLE001
+        return f"foreign exception {type(e).__name__}: {e}"[:200]
+    events = list(_events)
+    opened = set()
+    for kind, what in events:
+        if kind == "open":
+            c = classify(what, base)
+            if c:
+                opened.add((os.path.basename(what) == "main.xsd" and "main" or "ref", c))
+        else:
+            opened.add(("main" if what.lower().endswith("/main.xsd") else "ref", "remote"))
+    want = {tuple(x) for x in rec["opened"]}
+    if opened != want:
+        return (f"fetched {sorted(opened)}, the specification allows exactly {sorted(want)} "
+                f"(location written as {loc!r}; outcome {type(err).__name__ if err else 'built'})")
+    loaded = set(rec["loaded"])
+    if "main" not in loaded:
+        if schema is not None:
+            return "the main source is not permitted but a schema was built"
+        if not isinstance(err, xmlschema.XMLResourceError):
+            return f"main source refused with {type(err).__name__}, not a resource error"
+        return None
+    if schema is None:
+        # a blocked include/redefine may be reported as an error; a permitted one must load
+        if "ref" in loaded:
+            return f"permitted reference but the schema was refused: {str(err)[:160]}"
+        return None
+    ns = "urn:B" if mech == "import" else "urn:T"
+    has = ("{%s}tgt" % ns) in schema.maps.elements
+    if has != ("ref" in loaded):
+        return (f"declarations of the referenced document present={has}, spec loaded="
+                f"{'ref' in loaded} (location {loc!r})")
+    return None
+
+
 def judge(job):
     rec, ver = job
     install_audit()
@@ -141,54 +191,15 @@ def judge(job):
                 loc = location(ref["class"], "fileurl", base)
             src = REMOTE + "/main.xsd"
             REMOTE_FILES[src.lower()] = main_xsd(mech, loc)
-        kwargs = {"allow": allow}
-        if allow == "sandbox":
-            kwargs["base_url"] = os.path.join(base, "sand")
-            if main == "remote":
-                return out, 0       # a sandbox is a local directory: a remote main source is a usage error
-        del _events[:]
-        cls = cm.schema_class(ver)
-        schema = err = None
-        try:
-            with warnings.catch_warnings():
-                warnings.simplefilter("ignore")
-                schema = cls(src, **kwargs)
-        except xmlschema.XMLSchemaException as e:
-            err = e
-        except Exception as e:      # noqa: BLE001
-            out.append((rec, ver, f"foreign exception {type(e).__name__}: {e}"[:200]))
-            return out, 1
-        events = list(_events)
-        opened = set()
-        for kind, what in events:
-            if kind == "open":
-                c = classify(what, base)
-                if c:
-                    opened.add((os.path.basename(what) == "main.xsd" and "main" or "ref", c))
-            else:
-                opened.add(("main" if what.lower().endswith("/main.xsd") else "ref", "remote"))
-        want = {tuple(x) for x in rec["opened"]}
-        if opened != want:
-            out.append((rec, ver, f"fetched {sorted(opened)}, the specification allows exactly {sorted(want)} "
-                        f"(location written as {loc!r}; outcome {type(err).__name__ if err else 'built'})"))
-            return out, 1
-        loaded = set(rec["loaded"])
-        if "main" not in loaded:
-            if schema is not None:
-                out.append((rec, ver, "the main source is not permitted but a schema was built"))
-            elif not isinstance(err, xmlschema.XMLResourceError):
-                out.append((rec, ver, f"main source refused with {type(err).__name__}, not a resource error"))
-            return out, 1
-        if schema is None:
-            # a blocked include/redefine may be reported as an error; a permitted one must load
-            if "ref" in loaded:
-                out.append((rec, ver, f"permitted reference but the schema was refused: {str(err)[:160]}"))
-            return out, 1
-        ns = "urn:B" if mech == "import" else "urn:T"
-        has = ("{%s}tgt" % ns) in schema.maps.elements
-        if has != ("ref" in loaded):
-            out.append((rec, ver, f"declarations of the referenced document present={has}, spec loaded="
-                        f"{'ref' in loaded} (location {loc!r})"))
+        variants = [True, False] if (allow == "sandbox" and main == "inside") else [True]
+        if allow == "sandbox" and main == "remote":
+            return out, 0       # a sandbox is a local directory: a remote main source is a usage error
+        for explicit in variants:
+            bad = one_load(rec, ver, allow, main, mech, loc, src, base, explicit)
+            if bad:
+                out.append((rec, ver, bad + ("" if explicit else " [sandbox implied by the main source, "
+                                                               "no base_url given]")))
+                break
     return out, 1
 
 
